@@ -110,7 +110,7 @@ url_ctor = Unit(
                      (r"url\[hoststart\] == '\['", '(AT(hoststart), CHAR_IS(hoststart))', 1), (r"url\[hostend \+ 1\] == ':'", '(AT(hostend + 1), CHAR_IS(hostend + 1))', 1),
                      (r'protocol = url\.substring\(0, i\);', 'SUBSTRING_PRE(g_len, 0, i);', 1), (r'host = url\.substring\(([^,;]*), ([^;]*)\);', r'SUBSTRING_PRE(g_len, \1, \2);', None),
                      (r'path = url\.substring\(pathstart\);', 'SUBSTRING_PRE(g_len, pathstart, g_len);', 1), (r'if \(path == ""\)\s*path = \'/\';', '', 1),
-                     (r'\*this = Url\(\);', ';', 1),
+                     (r'\*this = Url\(\);', ';', None),
                      (r'\(int\)url\.substring\(portstart, pathstart\)', '(SUBSTRING_PRE(g_len, portstart, pathstart), nondet_int())', 1), (r'\bport = ', 'g_port = ', None)])],
     text=PRE + r'''
 int g_len, g_port;
